@@ -123,8 +123,8 @@ def suite_names(ctx, res, n):
 COLORS = ["#FF0000", "#00AA00", "#0000FF", "#FFCC00", "#7F3FBF", "#10A0C0", "#AA5500", "#222222"]
 
 
-def gen_font_case(rng, fmt):
-    n = rng.randint(1, 6)
+def gen_font_case(rng, fmt, force_tri=None):
+    n = rng.randint(1, 6) if force_tri is None else rng.randint(5, 6)
     seqs = []
     fam = rng.choice(["plain", "prefix", "shared", "long", "vs16", "vs16"])
     base = rng.randint(0x1F300, 0x1F9FF)
@@ -144,12 +144,24 @@ def gen_font_case(rng, fmt):
             seqs.append(s)
     vbw = rng.choice([50, 100, 200, 25])
     svgs = []
+    # squares are scaled copies of one another (one reuse group in OT-SVG); some sources are polygons with about the same bounds and centre,
+    # which share nothing: shared and unshared glyphs interleave, so the OT-SVG regrouping really moves glyphs
+    tri = [rng.random() < 0.4 for _ in range(n)] if force_tri is None else [(i % 2 == 1) for i in range(n)]
     for i in range(n):
         side = 10 + 8 * i
-        svgs.append(f'<svg xmlns="http://www.w3.org/2000/svg" viewBox="0 0 {vbw} 100"><path d="M2,2 L{2 + side},2 L{2 + side},{2 + side} L2,{2 + side} Z" fill="{COLORS[i % len(COLORS)]}"/></svg>')
+        if tri[i]:
+            # a polygon with 5 + i vertices inscribed in the same box (distinct vertex counts never share an outline; every triangle would
+            # be an affine copy of every other one)
+            import math
+            nv, cx_, r_ = 5 + i, 2 + side / 2, side / 2
+            pts = [(cx_ + r_ * math.cos(2 * math.pi * k / nv), cx_ + r_ * math.sin(2 * math.pi * k / nv)) for k in range(nv)]
+            d = "M" + " L".join(f"{x:.3f},{y:.3f}" for x, y in pts) + " Z"
+        else:
+            d = f"M2,2 L{2 + side},2 L{2 + side},{2 + side} L2,{2 + side} Z"
+        svgs.append(f'<svg xmlns="http://www.w3.org/2000/svg" viewBox="0 0 {vbw} 100"><path d="{d}" fill="{COLORS[i % len(COLORS)]}"/></svg>')
     cfg = fontgen.gen_config_fields(rng, fmt, small=True)
     cfg.pop("transform", None)
-    cfg["reuse_tolerance"] = -1 if rng.random() < 0.3 else cfg["reuse_tolerance"]
+    cfg["reuse_tolerance"] = -1 if (rng.random() < 0.3 and force_tri is None) else cfg["reuse_tolerance"]
     return {"id": f"c04:{fmt}:{rng.getrandbits(40)}", "seed": 0, "fmt": fmt, "svgs": svgs, "config": cfg, "codepoints": [list(s) for s in seqs], "vb": [vbw, 100]}
 
 
@@ -214,9 +226,12 @@ def check_font(ctx, res, case, out, pngs=None):
                 pth = pathops.Path()
                 gs[g].draw(pth.getPen(glyphSet=gs))
                 b = pth.bounds
-                if abs((b[2] - b[0]) - side * sc) > 2.5:
+                import re as _re
+                xs = [float(v) for v in _re.findall(r"[ML](-?[0-9.]+),", case["svgs"][i])]
+                want_w = (max(xs) - min(xs)) if xs else side
+                if abs((b[2] - b[0]) - want_w * sc) > 2.5:
                     res.add_cex("the glyph reached from a source's codepoints does not carry that source's outline",
-                                {"case": case, "i": i, "glyph": g, "width": b[2] - b[0], "expected": side * sc}, dict(site("artwork"), i=i))
+                                {"case": case, "i": i, "glyph": g, "width": b[2] - b[0], "expected": want_w * sc}, dict(site("artwork"), i=i))
                 continue
             if "colr" in fmt:
                 scn = render.ColrScene(font, g)
@@ -232,9 +247,11 @@ def check_font(ctx, res, case, out, pngs=None):
 
 
 def suite_fonts(ctx, res, n):
-    for k in range(n):
-        fmt = ALL_FORMATS[k % len(ALL_FORMATS)]
-        case = gen_font_case(ctx.rng, fmt)
+    plan = [(ALL_FORMATS[k % len(ALL_FORMATS)], None) for k in range(n)]
+    # OT-SVG with shared (square) and unshared (triangle) sources alternating and reuse on: the regrouping moves glyphs past one another
+    plan += [(f, True) for f in ("picosvg", "picosvgz")] * max(1, n // 26)
+    for fmt, force in plan:
+        case = gen_font_case(ctx.rng, fmt, force_tri=force)
         if fmt in ("cbdt", "sbix"):
             bc = {"id": case["id"], "fmt": fmt, "sizes": [(32, 32)] * len(case["svgs"]), "codepoints": case["codepoints"],
                   "config": dict(color_format=fmt, upem=1024, ascender=950, descender=-250, width=1275, bitmap_resolution=32,
